@@ -155,3 +155,16 @@ Theorem C03_byte_level_flush_durable_over_any_buffer : forall t n bk bv bh ops,
         exists s'' l, load t (dh, dk, dv) = Ok s'' /\ contents s'' = Ok l /\
                       l ≡ₚ map_to_list (fst (spec_run ∅ ops)).
 Proof. exact flush_durable_over_any_buffer. Qed.
+
+(** sync_all / sync_data of the concrete buffer (Cache_sync.v): a sync succeeds on every state the
+    theorems above reach, leaves exactly the logical file on the disk, and its OS sync request is
+    the NEWEST disk event - issued after every write of the flush it performs and after every
+    earlier write (the concrete form of "each file is OS-synced after its last buffered write") *)
+From Aby Require Import Cache_sync.
+Theorem C03_concrete_sync_durable_and_requested : forall c f all,
+  cache_invx c -> Cache_proofs.R c f ->
+  exists c' older, Rabuf.sync c all = Ok c' /\
+    Rabuf.k_disk c' = Rabuf.f_bytes f /\ Cache_proofs.R c' f /\ cache_invx c' /\
+    Rabuf.k_events c' = Rabuf.EvSync all :: older /\
+    (exists writes, older = writes ++ Rabuf.k_events c).
+Proof. exact sync_durable_and_requested. Qed.
